@@ -50,7 +50,7 @@ def tlc_judge(token_lists, devs, custom="<<>>", workers=1):
     return results, stats
 
 
-def judge_scripts(scripts, devs, custom="<<>>", setup=None):
+def judge_scripts(scripts, devs, custom="<<>>", setup=None, roundtrip=False):
     """scripts: list of bytes.  -> (records, counters, tlc stats).  A record is produced for every
     script with a failing judgement: {text, failed, expl, ref, obs}."""
     from . import sieve_impl as I
@@ -63,7 +63,7 @@ def judge_scripts(scripts, devs, custom="<<>>", setup=None):
         if outs is None:
             cnt["missing"] += 1
             continue
-        o = I.run_parse(p, data)
+        o = I.run_parse(p, data, rt=roundtrip)
         cnt["parses"] += 1
         ref = [q for q in outs if not q[0]][0]
         if ref[5] or note:
